@@ -216,11 +216,14 @@ def plan(tier, seed):
     for i in range(nf):
         specs.append({"kind": "float", "sub": i, "cases": 12 if tier == "quick" else 300, "nmax": 400, "exact_all": tier != "quick",
                       "budget_s": 100 if tier == "quick" else 600})
+    # long axes: anything gated on the length of the series, on long runs of equal weights or on a slowly converging recursion
+    for i in range(8 if tier == "quick" else 32):
+        specs.append({"kind": "long", "sub": i, "cases": 2 if tier == "quick" else 12, "budget_s": 120 if tier == "quick" else 600})
     return specs
 
 
 def run_shard(spec, R):
-    rng = np.random.default_rng([spec["seed"], 1, hash(spec["kind"]) % 1000 if False else {"patterns": 1, "structured": 2, "float": 3}[spec["kind"]], spec.get("sub", spec.get("n", 0)), spec.get("chunk", 0)])
+    rng = np.random.default_rng([spec["seed"], 1, hash(spec["kind"]) % 1000 if False else {"patterns": 1, "structured": 2, "float": 3, "long": 4}[spec["kind"]], spec.get("sub", spec.get("n", 0)), spec.get("chunk", 0)])
     ws2d_fraction()
     if spec["kind"] == "patterns":
         n = spec["n"]
@@ -244,6 +247,26 @@ def run_shard(spec, R):
             lam = gen_lam(rng, True)
             check_case(R, y, w, lam, do_health=(it % 3 == 0))
             R.count("class_w_" + WK[it % len(WK)])
+    elif spec["kind"] == "long":
+        for it in range(spec["cases"]):
+            if R.out_of_time():
+                R.count("stopped_on_budget")
+                break
+            k = spec["sub"] * spec["cases"] + it
+            n = int([512, 520, 600, 777, 640, 800, 513, 700, 1000, 1440, 900, 1200][k % (8 if spec["tier"] == "quick" else 12)])
+            wk = k % 4
+            w = np.ones(n)
+            if wk == 1:  # a few early gaps, then a long gap-free tail
+                w[rng.choice(40, 6, replace=False)] = 0
+            elif wk == 2:  # one fractional weight throughout
+                w[:] = [0.05, 0.5, 0.95][k % 3]
+            elif wk == 3:  # gappy
+                w[rng.random(n) < 0.3] = 0
+            y = gen_y(rng, n, YK[int(rng.integers(0, 3))])
+            lam = [1e8, 1e7, 1e6, 3e7, float(10.0 ** rng.uniform(-6, 8)), 1e8, 1e2, 1e8][(k // 4) % 8]
+            check_case(R, y, w, lam, do_exact=True, do_float=True)
+            R.count("long_axis_cases")
+            R.note_max("longest_axis_exact", n)
     elif spec["kind"] == "float":
         for it in range(spec["cases"]):
             if R.out_of_time():
